@@ -52,7 +52,7 @@ def _mpi_funcs_inl(prog):
     """the MPI-arm functions with their same-module helpers and closures expanded in place (see yawsa.inline): a
     send / receive that was moved into a helper is seen where it happens, with the communicator, tag and payload
     of that call site.  Helpers that were expanded everywhere they are called are not listed on their own."""
-    key = id(prog)
+    key = prog.uid
     if key in _INL:
         return _INL[key]
     from ..inline import inlined
